@@ -901,7 +901,7 @@ func runBinConn(args []string) {
 						h.ws.mu.Unlock()
 						h.ws.c.UnderlyingConn().Close()
 					}
-					time.Sleep(800 * time.Millisecond)
+					time.Sleep(1200 * time.Millisecond) // the pool notices the end of the connection (generous: machines under load)
 					r = okRes(nil)
 				case "Connect", "Peer":
 					h := conns[st.conn]
